@@ -138,6 +138,22 @@ Qed.
 Lemma or_text_none_l t : or_text None t = t.
 Proof. destruct t; reflexivity. Qed.
 
+(** the generated tests of the source (Gen/XmlWire.v) in the vocabulary of the proofs; these are the
+    lemmas that stop holding when one of those tokens is edited *)
+Lemma read_multi_eq f : xw_read_multi (fmax f) = is_multi f.
+Proof. unfold xw_read_multi, fmax, is_multi. destruct (f_max f); reflexivity. Qed.
+Lemma write_each_eq isnone f : xw_write_each isnone (fmax f) = negb isnone && is_multi f.
+Proof. unfold xw_write_each, fmax, is_multi. destruct (f_max f); reflexivity. Qed.
+Lemma write_one_eq isnone mn : xw_write_one isnone mn = negb isnone || (0 <? mn).
+Proof. reflexivity. Qed.
+Lemma freq_bad_eq n f :
+  negb (xw_freq_bad n (f_min f) (fmax f)) = (f_min f <=? n) && match f_max f with Some m => n <=? m | None => true end.
+Proof.
+  unfold xw_freq_bad, fmax. rewrite negb_orb, <- Z.leb_antisym. destruct (f_max f) as [m|]; cbn [ext_ltb negb].
+  - rewrite <- Z.leb_antisym. reflexivity.
+  - reflexivity.
+Qed.
+
 (** [wtxt]: what [wire] does to element.text *)
 Definition wtxt (t : option text) : option text := match t with Some [] => None | _ => t end.
 Lemma wire_elt ns n a t k : wire (XElt ns n a t k) = XElt ns n a (wtxt t) (map wire k).
@@ -220,7 +236,7 @@ Section RT.
       decf f (XElt ns (f_name f) a tx ks) = Ok v ->
       dec_kids decf fields (XElt ns (f_name f) a tx ks :: rest) st fr
       = dec_kids decf fields rest (setattr st (f_name f) v) (f_name f :: fr).
-    Proof. intros Hf Hk Hm Hd. cbn. rewrite Hf, Hk, Hd. cbn. rewrite Hm. reflexivity. Qed.
+    Proof. intros Hf Hk Hm Hd. cbn [dec_kids]. rewrite Hf, Hk, Hd. cbn [bind]. rewrite read_multi_eq, Hm. reflexivity. Qed.
 
     (** a run of elements of one max_occurs > 1 member *)
     Lemma block_multi f : find_field (f_name f) fields = Some f -> f_kind f = KElem -> is_multi f = true ->
@@ -240,7 +256,7 @@ Section RT.
         destruct (IHf st1 (f_name f :: fr) (l ++ [v])) as [st' [H1 [H2 [H3 H4]]]].
         { unfold st1. rewrite getattr_set_same. reflexivity. }
         exists st'. split; [|split; [|split]].
-        + intro rest. cbn [app]. cbn [dec_kids]. rewrite Hf, Hk, Hd. cbn [bind]. rewrite Hm, Hl. cbn [bind].
+        + intro rest. cbn [app]. cbn [dec_kids]. rewrite Hf, Hk, Hd. cbn [bind]. rewrite read_multi_eq, Hm, Hl. cbn [bind].
           fold st1. rewrite H1. cbn [length repeat]. f_equal.
           change (f_name f :: fr) with ([f_name f] ++ fr). rewrite app_assoc.
           replace (repeat (f_name f) (length es) ++ [f_name f]) with (f_name f :: repeat (f_name f) (length es)); [reflexivity|].
@@ -320,9 +336,10 @@ Section RT.
       apply andb_true_iff in Hc. destruct Hc as [Hmin _].
       unfold enc_field. destruct (f_kind f) eqn:Ek.
       - (* element member *)
+        rewrite write_each_eq, write_one_eq.
         destruct (is_multi f) eqn:Em.
         + (* max_occurs > 1 *)
-          destruct x as [| |c fs|xs]; try discriminate.
+          destruct x as [| |c fs|xs]; try discriminate; cbn [negb andb orb].
           * (* None: nothing is written *)
             apply Z.leb_le in Hk. replace (0 <? f_min f) with false by lia.
             exists [], [], None. split; [reflexivity|]. split; [constructor|]. split; [reflexivity|]. split; [reflexivity|].
@@ -381,7 +398,7 @@ Section RT.
           { intros e He Hp. rewrite He. cbn [bind]. exists [e], [], None. split; [reflexivity|]. split; [constructor|].
             split; [congruence|]. split; [reflexivity|]. split; [discriminate|]. split; [exact Hp|].
             apply pass_nothing_a; unfold kval, kocc; rewrite Ek; reflexivity. }
-          destruct x as [|pv|c fs|xs].
+          destruct x as [|pv|c fs|xs]; cbn [negb andb orb].
           * destruct (0 <? f_min f) eqn:Emin.
             -- destruct Hone as [e [He Hp]]; [right; reflexivity|]. exact (Hfin e He Hp).
             -- exists [], [], None. split; [reflexivity|]. split; [constructor|]. split; [reflexivity|]. split; [reflexivity|].
@@ -658,7 +675,7 @@ Section RT.
       specialize (A1 []). rewrite app_nil_r in A1. rewrite A1. cbn [dec_atts bind fst snd].
       rewrite Hsnd in *.
       assert (freq_ok ffs fr2 = true) as Hfq.
-      { unfold freq_ok. apply forallb_forall. intros f Hf.
+      { unfold freq_ok. apply forallb_forall. intros f Hf. rewrite freq_bad_eq.
         destruct (in_combine_ex ffs fs f Hlen Hf) as [x Hin].
         destruct (A3 f x Hin) as [_ B]. destruct (K3 f x Hin) as [_ B']. rewrite B, B'. cbn [count_text].
         rewrite forallb_forall in Hconf. specialize (Hconf (f, x) Hin). cbn [fst snd] in Hconf.
